@@ -279,3 +279,7 @@ func ZZ_C19_binary_roundtrip_sequence() {
 
 // C09 (round 2): the mapping part of the protobuf round trip, for every base and offset (offset 0 included)
 func ZZ_C09_mapping_proto_roundtrip() { ZZ_C19_proto_roundtrip() }
+
+// C06/C07 (round 3): the mapping block of the binary format, for every base and offset (offset 0 included)
+func ZZ_C06_mapping_binary_roundtrip() { ZZ_C19_binary_roundtrip() }
+func ZZ_C07_mapping_binary_roundtrip() { ZZ_C19_binary_roundtrip() }
